@@ -375,3 +375,33 @@ pub fn seqcmp<A: Cx + Ord>(a: &Seq<A>, b: &Seq<A>) -> i64 {
         c
     }
 }
+
+/// a partially advanced k-mer iterator handed to a consumer (internal iteration included)
+pub fn kmers_mix<A: Cx>(s: &SeqSlice<A>, k: usize, adv: usize, consumer: &str, cap: usize) -> Value {
+    assert!(k >= 1 && k * A::BITS as usize <= 64);
+    dispatch_k!(k, K => {
+        let mut it = s.kmers::<K>();
+        for _ in 0..adv {
+            if it.next().is_none() {
+                break;
+            }
+        }
+        let rest: Vec<Value> = match consumer {
+            "next" => { let mut v = Vec::new(); for _ in 0..cap { match it.next() { Some(x) => v.push(kview(&x)), None => break } } v }
+            "fold" => it.fold(Vec::new(), |mut v, x| { v.push(kview(&x)); v }),
+            "for_each" => { let mut v = Vec::new(); it.for_each(|x| v.push(kview(&x))); v }
+            "collect" => it.map(|x| kview(&x)).collect(),
+            "count" => return json!({"count": it.count()}),
+            "last" => return match it.last() { Some(x) => json!({"some": true, "item": kview(&x)}), None => json!({"some": false}) },
+            "skip1" => it.skip(1).map(|x| kview(&x)).collect(),
+            "step2" => it.step_by(2).map(|x| kview(&x)).collect(),
+            "peekable" => { let mut p = it.peekable(); let _ = p.peek(); p.map(|x| kview(&x)).collect() }
+            "enumerate" => it.enumerate().map(|(_, x)| kview(&x)).collect(),
+            "nth1" => { let mut v = Vec::new(); while let Some(x) = it.nth(1) { v.push(kview(&x)); if v.len() > cap { break; } } v }
+            "take3" => it.take(3).map(|x| kview(&x)).collect(),
+            "zip" => it.zip(0..).map(|(x, _)| kview(&x)).collect(),
+            o => panic!("harness: consumer {o}"),
+        };
+        json!({"items": rest})
+    })
+}
